@@ -89,7 +89,7 @@ Definition f_saltpack_encryptStream_init : gfunc := mkFunc "saltpack.encryptStre
       SIf [] (EBin OEq "bool" (EVar "sender") ENil)
       [SAssign ["sender"] [(EVar "ephemeralKey")]]
       [];
-      SAssign ["eh"] [(ELit "EncryptionHeader" [("FormatName", (EStr "saltpack")); ("Version", (EVar "version")); ("Type", (EInt (0))); ("Ephemeral", (ECall "BoxPublicKey.ToKID" [(ECall "BoxSecretKey.GetPublicKey" [(EVar "ephemeralKey")])])); ("Receivers", (ECall "make" [(EUnsup "*ast.ArrayType"); (EInt (0)); (ELen (EVar "receivers"))]))])];
+      SAssign ["eh"] [(ELit "EncryptionHeader" [("FormatName", (EStr "saltpack")); ("Version", (EVar "version")); ("Type", (EInt (0))); ("Ephemeral", (ECall "BoxPublicKey.ToKID" [(ECall "BoxSecretKey.GetPublicKey" [(EVar "ephemeralKey")])])); ("Receivers", (ECall "makemap" []))])];
       SAssign ["payloadKey"; "err"] [(ECall "encryptRNG.createSymmetricKey" [(EVar "rng")])];
       SIf [] (EBin ONe "bool" (EVar "err") ENil)
       [SReturn [(EVar "err")]]
